@@ -59,6 +59,12 @@ def run(sc):
             for i in range(200):
                 if rng.random() < 0.6:
                     s.hook.delays[('received', i)] = rng.choice((0.01, 0.3, 1.1))
+        if sc.get('blocked_hook'):
+            # the application's received hook hangs on the very first PDU it is handed after the bind, and the peer stops
+            # answering keep-alive probes: the session is given up and its tasks are cancelled while the hook is suspended
+            n_bind = 1 + (1 if sc['reject_first'] else 0)
+            s.hook.delays[('received', n_bind)] = 60.0
+            s.smsc.enquire = lambda conn, seq: None
         if sc['reject_first']:
             s.smsc.bind = lambda n: ('resp', 13) if n == 0 else ('resp', 0)
         # log what the peer delivers
@@ -275,9 +281,25 @@ def predicate(sc, ev, state):
                 if seq not in lst:
                     return 'response %08x with sequence number %d answers no request delivered on connection %d' % (cmd, seq, e[2])
                 lst.remove(seq)
+    # a deliver_sm is answered (other than with a generic_nack) only after the received hook it was handed to has returned
+    hook_done = set()
+    fed_hdr = {}
+    for e in ev:
+        if e[1] == 'fed':
+            for p in split_pdus(e[3]):
+                if len(p) >= 16 and struct.unpack('!I', p[4:8])[0] == 5:
+                    fed_hdr[(e[2], struct.unpack('!I', p[12:16])[0])] = bytes(p[:16])
+        elif e[1] == 'received-done':
+            hook_done.add(bytes(e[2]))
+        elif e[1] == 'write' and len(e[3]) >= 16 and struct.unpack('!I', e[3][4:8])[0] == 0x80000005:
+            seq = struct.unpack('!I', e[3][12:16])[0]
+            h = fed_hdr.get((e[2], seq))
+            if h is not None and h not in hook_done:
+                return ('deliver_sm_resp for sequence number %d written at %.3f on connection %d although the received hook that was '
+                        'handed the deliver_sm had not returned' % (seq, e[0], e[2]))
     # every request answered: in an undisturbed session (no scripted drop or stall, the peer never unbinds) every request
     # with a recognised header that was delivered well before stop() has its response by the end
-    if not sc['drops'] and not sc.get('stalls') and sc['hook'] in ('none', 'sending'):      # (a slow received hook builds a backlog)
+    if not sc['drops'] and not sc.get('stalls') and sc['hook'] in ('none', 'sending') and not sc.get('blocked_hook'):      # (a slow received hook builds a backlog)
         fed_req = [(e[0], e[2], struct.unpack('!I', p[4:8])[0], struct.unpack('!I', p[12:16])[0])
                    for e in ev if e[1] == 'fed' for p in split_pdus(e[3])
                    if recognised(p) and struct.unpack('!I', p[4:8])[0] < 0x80000000]
@@ -325,6 +347,11 @@ def generate(rng, tier):
         yield case_of(scenario(rng))
     # directed: an undisturbed session (no drops, no stalls, hooks that return at once) in which the peer sends one request of
     # every kind, the largest PDUs included, early enough for every answer to be due
+    for mode in ('TRANSCEIVER', 'RECEIVER'):
+        sc = dict(stalls=0, mode=mode, horizon=40.0, hook='none', n_msgs=0, n_in=0, drops=0, reject_first=False, stop_at=35.0003,
+                  seed=rng.randrange(10 ** 9), blocked_hook=True,
+                  force_in=[['deliver', 1.0001], ['deliver', 1.5001], ['enq', 2.0001]])
+        yield case_of(sc)
     kinds = ('deliver', 'enq', 'unsupported', 'bad', 'seg', 'receipt', 'times', 'huge', 'burst', 'huge', 'receipt', 'times')
     for mode in ('TRANSCEIVER', 'RECEIVER', 'TRANSMITTER'):
         for rep in range(3 if thorough else 1):
